@@ -91,8 +91,11 @@ func executeCompaction(db *DB) (compactionMetadata *proto.CompactionMetadata, er
 		return nil, err
 	}
 
+	writerClosed := false
 	defer func() {
-		err = errors.Join(err, writer.Close())
+		if !writerClosed {
+			err = errors.Join(err, writer.Close())
+		}
 	}()
 
 	var readers []sstables.SSTableReaderI
@@ -127,6 +130,14 @@ func executeCompaction(db *DB) (compactionMetadata *proto.CompactionMetadata, er
 		reduceFunc = scanReduceLatestWinsKeepTombstones
 	}
 	err = sstables.NewSSTableMerger(db.cmp).MergeCompact(iterators, writer, reduceFunc)
+	if err != nil {
+		return nil, err
+	}
+
+	// the new table must be completely on disk before the compaction is flagged as successful below,
+	// otherwise a recovery would replace the compacted tables with an unfinished one
+	writerClosed = true
+	err = writer.Close()
 	if err != nil {
 		return nil, err
 	}
